@@ -18,6 +18,72 @@ s=s.replace('''        let asb = v.as_bytes();
 s=s.replace('''    if a.variants.len() != b.variants.len() {''','''    if b.variants.len() != a.variants.len() {''')
 # 5. rename a local variable
 s=s.replace('let mut compressed_writer = bzip2::write::BzEncoder::new','let mut bzw = bzip2::write::BzEncoder::new').replace('&mut compressed_writer,','&mut bzw,').replace('writer: &mut compressed_writer,','writer: &mut bzw,').replace('let writer = compressed_writer.finish()?;','let writer = bzw.finish()?;')
+# ---- set B: edits aimed at the rules added in the seeded rounds -----------------------------------
+def rep(a, b, count=1):
+    global s
+    assert a in s, a[:60]
+    s = s.replace(a, b, count)
+# 6. K3: key derivation moved into a helper (no change of the function computed)
+rep("""    pub fn save_encrypted_file<T: WithSchema + Serialize, P: AsRef<Path>>(""", """    fn key_of(password: &str) -> [u8; 32] {
+        use ring::digest;
+        let hashed = digest::digest(&digest::SHA256, password.as_bytes());
+        let mut key = [0u8; 32];
+        key.clone_from_slice(hashed.as_ref());
+        key
+    }
+    pub fn save_encrypted_file<T: WithSchema + Serialize, P: AsRef<Path>>(""")
+rep("""        use ring::digest;
+        let actual = digest::digest(&digest::SHA256, password.as_bytes());
+        let mut key = [0u8; 32];
+        let password_hash = actual.as_ref();
+        assert_eq!(password_hash.len(), key.len(), "A SHA256 sum must be 32 bytes");
+        key.clone_from_slice(password_hash);
+""", """        let key = key_of(password);
+""", 2)
+# 7. K5: nonce built with copy_from_slice instead of two indexed loops
+rep("""            for i in 0..8 {
+                bytes[i] = bytes1[i];
+            }
+            for i in 0..4 {
+                bytes[i + 8] = bytes2[i];
+            }
+""", """            bytes[0..8].copy_from_slice(&bytes1);
+            bytes[8..12].copy_from_slice(&bytes2);
+""")
+# 8. S3: the cursor update written differently
+rep("""            *cur += frame.keyvals.len() - offset;""", """            *cur = *cur + frame.keyvals.len() - offset;""")
+# 9. W8: format gates written as `>= 1`
+rep("""            offset: if deserializer.file_version > 0 {""", """            offset: if deserializer.file_version >= 1 {""")
+# 10. T6: clean-up of the slots filled so far on a failed read (correct: indices below the one being filled)
+rep("""                data[idx] = MaybeUninit::new(T::deserialize(deserializer)?); //This leaks on panic, but we shouldn't panic and at least it isn't UB!""",
+    """                match T::deserialize(deserializer) {
+                    Ok(item) => data[idx] = MaybeUninit::new(item),
+                    Err(err) => {
+                        for loaded in &mut data[0..idx] {
+                            unsafe { loaded.assume_init_drop() };
+                        }
+                        return Err(err);
+                    }
+                }""")
+# 11. Q1: an accepting shortcut that IS covered by its condition (both field lists empty: nothing left to compare)
+rep("""    for i in 0..a.len() {
+        let r = diff_schema(
+            &a[i].value,""", """    if a.is_empty() && b.is_empty() {
+        return None;
+    }
+    for i in 0..a.len() {
+        let r = diff_schema(
+            &a[i].value,""")
+# 12. K7: draining written with a named sink
+rep("""                std::io::copy(&mut compressed_reader, &mut std::io::sink())?;""", """                let mut rest = std::io::sink();
+                std::io::copy(&mut compressed_reader, &mut rest)?;""")
+open(p,'w').write(s)
+# savefile-abi: Q7 (hoisted latest version), L1/L2/L4 (template lookup in a scoped block; negotiation still under the lock)
+p='savefile-abi/src/lib.rs'; s=open(p).read()
+rep("""    for version in 0..=T::get_latest_version() {
+        let def = T::get_definition(version);""", """    let latest = T::get_latest_version();
+    for version in 0..=latest {
+        let def = T::get_definition(version);""")
 open(p,'w').write(s)
 PY
 git diff --stat
